@@ -727,6 +727,14 @@ fn kind_from(s: &str) -> Kind {
 
 fn replay(ctx: &Ctx, path: &std::path::Path) -> i32 {
     let doc: Value = serde_json::from_str(&std::fs::read_to_string(path).expect("replay file")).expect("json");
+    if !doc["replay"]["rendezvous"].is_null() {
+        let mut report = Report::new();
+        if let Err(e) = super::c20r::replay(&doc["replay"], &mut report) {
+            eprintln!("MACHINERY: {}", e);
+            return 2;
+        }
+        return common::finish(ctx, report, Evidence::new("model_checking"));
+    }
     if !doc["replay"]["expired_in_use"].is_null() {
         let e = &doc["replay"]["expired_in_use"];
         let sp = InUseSpec { pase_in_use: e["pase_in_use"].as_bool().unwrap(), pase_handshake: e["pase_handshake"].as_bool().unwrap(), fillers: e["fillers"].as_u64().unwrap() as usize, fillers_fresher: e["fillers_fresher"].as_bool().unwrap() };
@@ -883,8 +891,15 @@ pub fn run_check(ctx: &Ctx) -> i32 {
             }
         }
     }
+    let rz = super::c20r::explore(ctx.tier, &mut report);
+    if report.violations.is_empty() && (rz.states < 50 || rz.served == 0 || rz.timed_out == 0) {
+        eprintln!("MACHINERY: vacuous rendezvous exploration ({} states, {} served, {} timed out)", rz.states, rz.served, rz.timed_out);
+        return 2;
+    }
     let mut ev = Evidence::new("model_checking");
-    ev.set("states", json!(outcomes.len()))
+    ev.set("rendezvous_slots", json!({"states": rz.states, "transitions": rz.transitions, "liveness_probes": rz.probes, "browse_requesters_served_over_all_histories": rz.served, "browse_requesters_timed_out_over_all_histories": rz.timed_out,
+        "rule": format!("BFS depth {} over 16 operations on a real Matter: two commissionable-browse requesters with different filters and one operational-resolve requester (Exchange::initiate towards a node without a session) started / polled / dropped at any point, the responder side picking requests up and depositing matching and non-matching answers, the clock passing the 5 s time-outs; in every state, on fresh copies with all waiters cancelled and with all waiters left to time out, a new browse and a new resolve must be picked up by the responder and served, and a requester is only ever handed a node matching its own filter", if quick { 6 } else { 8 })}));
+    ev.set("states", json!(outcomes.len() as u64 + rz.states))
         .set("expired_in_use_scenarios", json!(in_use.len()))
         .set("transitions", json!(executed))
         .set("traces_validated_against_impl", json!(executed))
@@ -893,8 +908,8 @@ pub fn run_check(ctx: &Ctx) -> i32 {
         .set("vacuity", json!({"runs": executed, "busy_status_reports_seen": busy, "probe_handshakes_succeeded": probes_ok, "runs_with_idle_unsecured_sessions_left": with_leftover_plain, "distinct_end_states": outcomes.len()}))
         .set("rule", json!(format!("every sequence of up to {} attempts over 13 attempt kinds (CASE/PASE complete, initiator vanishing after its n-th message, n-th message garbled, wrong passcode), each later attempt sequential or concurrent; the responder future cancelled and restarted after every number of polls 1..{} during each attempt kind; 15..18 completed or abandoned handshakes against the 16-slot session table; horizon 200 s of quiet virtual time, then a probe handshake; plus 24 scenarios with a (nearly) full table in which a CASE / PASE session is marked expired (RemoveFabric / CommissioningComplete style) while the device's handler holds an exchange on it and a new CASE / PASE handshake then needs a slot", if quick { 2 } else { 3 }, max_polls)));
     ev.assume("an idle unsecured session without exchanges counts as free (it is evictable on demand, which the exhaustion runs exercise)");
-    ev.assume("the mDNS resolve/browse rendezvous slots are not driven by this harness");
-    if executed == 0 || probes_ok == 0 {
+    ev.assume("the rendezvous slots are driven through the transport's public requester / responder contract; the built-in mDNS responder's use of them over the network is not part of this check");
+    if report.violations.is_empty() && (executed == 0 || probes_ok == 0) {
         eprintln!("MACHINERY: vacuous C20 run");
         return 2;
     }
